@@ -3,13 +3,12 @@ LIFT, part 1: the crash invariant `CrashInvC5b` through a CLEAN RESTART (drop + 
 clean system), and helper lemmas on systems that differ only in the fields the invariants
 do not read (`locked`, `dump`, `cfg`).
 
-The threading needs one hypothesis besides `Sys.Clean`: every linked file that still has
-bytes not known durable is the open chunk's file (`Sys.OldSyncedLIFT`). A clean system can
-violate it (a failed `fdatasync` of an OLDER chunk file leaves that file in the worker's
-list, the worker goes back to `recv`); the worker `open` builds tracks only the newest file,
-so after the restart the older file is never synced again, the system is no longer
-`SysCovered`, and a later positive callback no longer means "durable"
-(`Props/LiftRestart.lean`, `lift_restart_forgets_unsynced_old_chunk`).
+D15: `open` syncs every chunk file it keeps, so after the restart every linked file is
+durable up to its length and the restarted system is `SysCovered` without any hypothesis on
+the older chunk files (before D15 the hypothesis `Sys.OldSyncedLIFT` was needed: a failed
+`fdatasync` of an OLDER chunk file left that file unsynced, and the worker `open` builds
+tracks only the newest file). `Sys.OldSyncedLIFT` is kept as a definition (it still holds
+along histories without fault) but no theorem needs it any more.
 
 All names carry the suffix `_LIFT` / `LIFT`.
 -/
@@ -46,8 +45,9 @@ theorem chunkBytes_reopen_LIFT {s s' : Store} {fs : Fs} {w : Worker}
 position. -/
 theorem DInv.reopen_LIFT {s s' : Store} {fs : Fs} {w : Worker} {A : Nat} (h : DInv s fs w A)
     (hj : JInv s fs w) (hpc : w.pc = .idle) (hqe : w.queue = [])
-    (h3 : s'.openOffsets = s.openOffsets) (h5 : s'.closed = s.closed) (pl : Option LogId) :
-    DInv s' fs { files := [⟨s.openId, pl⟩] } A := by
+    (h3 : s'.openOffsets = s.openOffsets) (h5 : s'.closed = s.closed) (pl : Option LogId)
+    (ids : List Nat) :
+    DInv s' (fs.syncAll ids) { files := [⟨s.openId, pl⟩] } A := by
   have hrest : w.rest = [] := by simp [Worker.rest, hpc, hqe, WPc.inHand]
   have hcur : w.cur = s.openId := by
     have := hj.annLast
@@ -56,20 +56,39 @@ theorem DInv.reopen_LIFT {s s' : Store} {fs : Fs} {w : Worker} {A : Nat} (h : DI
   have e2 : s'.openEnd = s.openEnd := by simp [Store.openEnd, h3]
   have e3 : s'.chunks = s.chunks := by simp [Store.chunks, h3, h5]
   refine ⟨⟨trivial, fun r hr => (by cases hr), ?_⟩, fun i hi => (by cases hi),
-    (by rw [e2]; exact h.a2), (by rw [e3]; exact h.dw), (by rw [e3]; exact h.dd)⟩
-  intro i hi hlt
-  have := h.wu.u3 i hi (by rw [hcur]; exact hlt)
-  rw [hrest] at this
-  exact this
+    (by rw [e2]; exact h.a2),
+    (by rw [e3]; intro offs ho; rw [fdata_syncAll]; exact h.dw offs ho), ?_⟩
+  · intro i hi hlt
+    rw [Fs.ids_syncAll] at hi
+    have := h.wu.u3 i hi (by rw [hcur]; exact hlt)
+    rw [hrest] at this
+    exact this
+  · rw [e3]
+    intro offs ho f' hf'
+    rw [Fs.find_syncAll] at hf'
+    cases hf : fs.find (offs.headD 0) with
+    | none => rw [hf] at hf'; cases hf'
+    | some f =>
+      rw [hf] at hf'
+      simp only [Option.map_some, Option.some.injEq] at hf'
+      by_cases hc : ids.contains f.id = true
+      · rw [if_pos hc] at hf'; subst hf'
+        have := h.dw offs ho
+        unfold fdata at this
+        rw [hf] at this
+        exact this
+      · rw [if_neg hc] at hf'; subst hf'
+        exact h.dd offs ho f hf
 
 /-- What drop + open of a clean system is, as a record. -/
 theorem restart_eq_LIFT (y : Sys) (s : Store) (r : RefLog) (cfg' : Cfg) (h : CSys y r)
     (hs : y.store = some s) (hq : y.worker.quiet = true) (hp : s.pending = [])
     (hrem : s.removed = []) (hpost : y.worker.postponed = []) :
-    ∃ s', openStore cfg' y.fs = (.ok (s', { files := [⟨s.openId, prevLastOf s.closed⟩] }), y.fs, []) ∧
+    ∃ s', openStore cfg' y.fs = (.ok (s', { files := [⟨s.openId, prevLastOf s.closed⟩] }),
+        y.fs.syncAll y.fs.linkedIds, syncEvs y.fs.linkedIds) ∧
       (y.step .drop).step (.openWith cfg') =
         { ({ (y.step .drop) with cfg := cfg' } : Sys) with
-          fs := y.fs, store := some s',
+          fs := y.fs.syncAll y.fs.linkedIds, store := some s',
           worker := { files := [⟨s.openId, prevLastOf s.closed⟩] }, locked := true } ∧
       s'.st = s.st ∧ s'.log = s.log ∧ s'.closed = s.closed ∧ s'.openOffsets = s.openOffsets ∧
       s'.pending = [] ∧ s'.removed = [] ∧ s'.cfg = cfg' := by
@@ -81,23 +100,25 @@ theorem restart_eq_LIFT (y : Sys) (s : Store) (r : RefLog) (cfg' : Cfg) (h : CSy
   obtain ⟨d1, d2, d3, _⟩ := dropStore_quiet y s hs hpc hqe
   have hlinked := hli.linkedIds_eq hinv.j hrem htr
   obtain ⟨s', ho, k1, k2, k3, k4, k5, k6, k7, k8, k9⟩ := openStore_of_rep cfg' hinv hinf hp hlinked
+  rw [← hlinked] at ho
   have hopen : ({ (y.step .drop) with cfg := cfg' } : Sys).open =
       (.ok (), { ({ (y.step .drop) with cfg := cfg' } : Sys) with
-        fs := y.fs, store := some s',
-        worker := { files := [⟨s.openId, prevLastOf s.closed⟩] }, locked := true }, []) := by
+        fs := y.fs.syncAll y.fs.linkedIds, store := some s',
+        worker := { files := [⟨s.openId, prevLastOf s.closed⟩] }, locked := true },
+        syncEvs y.fs.linkedIds) := by
     simp only [Sys.step, Sys.open, d2, d1, ho]
     simp
   refine ⟨s', ho, ?_, k1, k2, k3, k4, k5, k6, k7⟩
   show ({ (y.step .drop) with cfg := cfg' } : Sys).open.2.1 = _
   rw [hopen]
 
-/-- **The crash invariant through a clean restart.** `y` satisfies the crash invariant, is
-clean (worker blocked on an empty queue, nothing pending, nothing to remove) and its older
-chunk files are synced. Then drop + open with any configuration yields a system that
+/-- **The crash invariant through a clean restart.** `y` satisfies the crash invariant and is
+clean (worker blocked on an empty queue, nothing pending, nothing to remove). (D15: no
+hypothesis on the older chunk files — `open` syncs them.) Then drop + open with any configuration yields a system that
 satisfies the crash invariant AGAIN — same reference log, same write history, same
 acknowledged position, same tracked position. -/
 theorem crashInv_clean_restart_LIFT {y : Sys} {r : RefLog} {W : List Op} {A E K : Nat}
-    (h : CrashInvC5b y r W A E K) (hc : y.Clean) (hold : y.OldSyncedLIFT) (cfg' : Cfg) :
+    (h : CrashInvC5b y r W A E K) (hc : y.Clean) (cfg' : Cfg) :
     CrashInvC5b ((y.step .drop).step (.openWith cfg')) r W A E K := by
   obtain ⟨s, hs, hq, hp, hrem, hpost⟩ := hc
   obtain ⟨s', _, hy2, k1, k2, k3, k4, k5, k6, _⟩ :=
@@ -110,11 +131,16 @@ theorem crashInv_clean_restart_LIFT {y : Sys} {r : RefLog} {W : List Op} {A E K 
   have htr : y.worker.toRemove = [] := by rw [toRemove_quiet hpc hqe]; exact hpost
   obtain ⟨f1, f2, f3⟩ := reopen_worker_facts s.openId (prevLastOf s.closed)
   rw [hy2]
+  have hsb : SameBytes y.fs (y.fs.syncAll y.fs.linkedIds) := SameBytes.syncAll _ _
+  have hcbF : ∀ (s1 : Store) (w1 : Worker) id,
+      chunkBytes s1 (y.fs.syncAll y.fs.linkedIds) w1 id = chunkBytes s1 y.fs w1 id := by
+    intro s1 w1 id; simp only [chunkBytes, fdata_syncAll]
+  generalize hfs2 : y.fs.syncAll y.fs.linkedIds = fs2 at *
   generalize hw' : ({ files := [⟨s.openId, prevLastOf s.closed⟩] } : Worker) = w' at *
-  have hcb : ∀ id, chunkBytes s' y.fs w' id = chunkBytes s y.fs y.worker id := by
-    intro id; rw [← hw']; exact chunkBytes_reopen_LIFT hinf hp k4 k5 _ id
-  have hrinv : RInv s' y.fs w' r := by
-    rw [← hw']; exact hi.inv.reopen hinf hp k1 k2 k4 k5 k3 _
+  have hcb : ∀ id, chunkBytes s' fs2 w' id = chunkBytes s y.fs y.worker id := by
+    intro id; rw [hcbF, ← hw']; exact chunkBytes_reopen_LIFT hinf hp k4 k5 _ id
+  have hrinv : RInv s' fs2 w' r := by
+    rw [← hw']; exact hi.inv.reopen hsb hinf hp k1 k2 k4 k5 k3 _
   have hpcw : w'.pc = .idle := by rw [← hw']
   have hnd : w'.pc ≠ .dead := by rw [hpcw]; intro e; cases e
   have hunl : UnlPostC3b w' := by
@@ -127,13 +153,14 @@ theorem crashInv_clean_restart_LIFT {y : Sys} {r : RefLog} {W : List Op} {A E K 
   refine ⟨B, ⟨⟨s', rfl, hnd, ?_⟩, ⟨s', rfl, ?_⟩, ?_, ?_⟩, ?_, ?_, ?_⟩
   · -- the history and durability invariant
     refine hi.transport hrinv k1 k2 k4 k3 hcb ?_
-    rw [← hw']; exact hi.dur.reopen_LIFT hi.inv.j hpc hqe k4 k3 _
-  · rw [← hw']; exact hli.reopen hrem htr k4 k3 k6 _
-  · -- every unsynced linked file is tracked by the fresh worker
+    rw [← hw', ← hfs2]; exact hi.dur.reopen_LIFT hi.inv.j hpc hqe k4 k3 _ _
+  · rw [← hw']; exact hli.reopen hsb hrem htr k4 k3 k6 _
+  · -- D15: no linked file is unsynced after `open`
     intro f hf hdl hl
-    left
-    have := hold s hs f hf hdl hl
-    rw [← hw', this]; simp
+    exfalso
+    rw [← hfs2] at hf
+    have := syncAll_linkedIds_durable hli.nodup f hf hl
+    omega
   · intro _
     exact hwfS (hswf (by rw [hs]; simp)).1
   · -- the ghost invariant: no ghost chunk is left
@@ -150,10 +177,10 @@ theorem crashInv_clean_restart_LIFT {y : Sys} {r : RefLog} {W : List Op} {A E K 
     simp only [ghostClosedC3b, List.map_nil, Store.liftC3b_nil] at hb
     refine ⟨s', Bh, [], rfl, ?_, (fun p hp => by cases hp), ?_, hgi.ack, List.Pairwise.nil,
       (fun p hp => by cases hp), hunl⟩
-    · show HInv (s'.liftC3b []) y.fs w' r W Bh A E K
+    · show HInv (s'.liftC3b []) fs2 w' r W Bh A E K
       rw [Store.liftC3b_nil]
       refine hb.transport hrinv k1 k2 k4 k3 hcb ?_
-      rw [← hw']; exact hb.dur.reopen_LIFT hb.inv.j hpc hqe k4 k3 _
+      rw [← hw', ← hfs2]; exact hb.dur.reopen_LIFT hb.inv.j hpc hqe k4 k3 _ _
     · show w'.toRemove ++ s'.removed = _
       rw [f3, k6]; rfl
   · -- small records
@@ -161,17 +188,17 @@ theorem crashInv_clean_restart_LIFT {y : Sys} {r : RefLog} {W : List Op} {A E K 
     have : s2 = s' := by
       simp only [Option.some.injEq] at hs2; exact hs2.symm
     subst this
-    exact (hS s hs).transport (fun id hid => hid) hcb
+    exact (hS s hs).transport (fun id hid => by rw [← hsb.ids]; exact hid) hcb
   · -- payload mirroring, for the store with all dropped chunks put back
     obtain ⟨s0, T, hs0, hti⟩ := hT
     rw [hs] at hs0; cases hs0
     refine ⟨s', T, rfl, ?_, ⟨T.map Closed.id, ?_⟩, hunl⟩
-    · have hr2 : RInv (s'.liftC3b T) y.fs w' r := by
+    · have hr2 : RInv (s'.liftC3b T) fs2 w' r := by
         rw [← hw']
-        exact hti.pinv.inv.reopen (s' := s'.liftC3b T) hinf hp k1 k2 k4 k5 (by simp [k3]) _
+        exact hti.pinv.inv.reopen (s' := s'.liftC3b T) hsb hinf hp k1 k2 k4 k5 (by simp [k3]) _
       refine hti.pinv.transport hr2 k1 k2 k4 (by simp [k3]) ?_
       intro id
-      rw [← hw']
+      rw [hcbF, ← hw']
       exact chunkBytes_reopen_LIFT (s := s.liftC3b T) (s' := s'.liftC3b T) hinf hp k4 k5 _ id
     · show _ = _ ++ (w'.toRemove ++ s'.removed)
       rw [f3, k6]; simp
